@@ -6,6 +6,14 @@ CFG = {
     "prop_file": "theories/Properties/C07.v",
     "theory_files": ["theories/Base/Bytes.v", "theories/Base/BytesProofs.v",
                      "theories/Formats/Stl.v", "theories/Formats/StlProofs.v"],
+    "level_text": "Coq theorems about a byte-level model of stl.Write/Read/WriteMesh/ReadMesh (size law, both round-trip "
+                  "directions, mesh-level gather, prefix rejection) for every triangle list and byte string; the model "
+                  "is tied to the Go code on every run by evaluating it (vm_compute) on the implementation's inputs and "
+                  "outputs and by a direct oracle on the implementation's output",
+    "level_note": "Trusted: Coq kernel + vm_compute; hand-written model tied by differential correspondence only "
+                  "(generator quality bounds it); float32 rounding and facet-normal arithmetic are Go-side (tolerance check)",
+    "technique": "Coq proof (induction over record lists, byte-level round trip) + vm_compute correspondence check",
+    "design_ref": "DESIGN.md §4 C07",
     "n_quick": 240, "n_thorough": 4000,
     "rule": "random triangle meshes (0-10 triangles, welded/unwelded, +-normals, +-Position, trailing partial "
             "triangle) through stl.WriteMesh/ReadMesh, and random well-formed STL byte strings (0-8 records, "
